@@ -30,6 +30,11 @@ for fn in $funcs; do
     if ! (cd "$S" && go build ./... >/dev/null 2>&1); then echo -e "$pkg\t$fn\t$id\t$line\t$desc\tnocompile" >> "$OUT"; cp /repo/$pkg/$file "$S/$pkg/$file"; continue; fi
     if ! (cd "$S" && go test -vet=off -count=1 -timeout 90s $deps >/dev/null 2>&1); then echo -e "$pkg\t$fn\t$id\t$line\t$desc\tkilled-by-tests" >> "$OUT"; cp /repo/$pkg/$file "$S/$pkg/$file"; continue; fi
     res=$(/verif/bin/govc func -repo "$S" $pkg "$fn" 2>&1)
+    # closures of the function that carry contracts of their own
+    for cl in $(grep -h "^//@ func " /repo/$pkg/zz_verif_contracts.go | sed 's|^//@ func ||' | grep -F "$fn\$"); do
+      res="$res
+$(/verif/bin/govc func -repo "$S" $pkg "$cl" 2>&1)"
+    done
     if echo "$res" | grep -qE "^  FAIL|TOOL-FAULT"; then
       ob=$(echo "$res" | grep -E "^  FAIL" | head -1 | awk '{print $2}')
       echo -e "$pkg\t$fn\t$id\t$line\t$desc\tdetected\t$ob" >> "$OUT"
